@@ -42,9 +42,13 @@ func SendPing(ctx context.Context, s NetcForPing, target string, hopsToLive byte
 	errorChan := make(chan errorResult)
 	go func() {
 		for msg := range unrCh {
-			errorChan <- errorResult{
+			select {
+			case errorChan <- errorResult{
 				err:      fmt.Errorf(msg.Problem), //nolint:govet
 				fromNode: msg.ReceivedFromNode,
+			}:
+			case <-ctxPing.Done():
+				// The ping has already returned; nobody reads errorChan any more.
 			}
 		}
 	}()
